@@ -5,7 +5,6 @@
 
 #include <etl/_functional/invoke.hpp>
 #include <etl/_tuple/apply.hpp>
-#include <etl/_tuple/make_tuple.hpp>
 #include <etl/_tuple/tuple.hpp>
 #include <etl/_type_traits/decay.hpp>
 #include <etl/_type_traits/invoke_result.hpp>
@@ -87,7 +86,7 @@ private:
 template <typename Func, typename... BoundArgs>
 constexpr auto bind_front(Func&& func, BoundArgs&&... boundArgs)
 {
-    return detail::bind_front_t<decay_t<Func>, detail::unwrap_decay_t<BoundArgs>...>{
+    return detail::bind_front_t<decay_t<Func>, decay_t<BoundArgs>...>{
         etl::forward<Func>(func),
         etl::forward<BoundArgs>(boundArgs)...
     };
